@@ -232,3 +232,24 @@ Proof.
        rewrite Vc, E2; cbn; reflexivity
      | split; [reflexivity| cbn; rewrite ?map_map; repeat split; reflexivity ] ]).
 Qed.
+
+(** the hypotheses of [plain_seq_roundtrip] are satisfiable *)
+Lemma plain_seq_example :
+  let vars := [("n", (true, 1))] in
+  let ops := [mkCall "delay" [] [("duration", VItem "n" 1 (KInt (-1))); ("channel", VStr "ch");
+                                 ("at_rest", VBool false)]] in
+  let S := plain_seq "s" (JArr []) (JStr "MockDevice") None vars ["q0"] [("ch", "rydberg_global")] ops
+                     (Some "ground-rydberg") in
+  Forall (rt_call S (vctx vars)) ops
+  /\ (match encode_seq S with
+      | Some doc => match decode_seq doc, norm_seq S with
+                    | Some d, Some cs => calls_eqb (d_calls d) cs && valid gen_seq_defs 40 doc 40 gen_seq_root
+                    | _, _ => false
+                    end
+      | None => false
+      end) = true.
+Proof.
+  split.
+  - constructor; [|constructor]. apply rt_delay. reflexivity.
+  - vm_compute. reflexivity.
+Qed.
